@@ -61,6 +61,46 @@ struct Workload {
     /// the Shutdown message is queued right behind the writes of the last wave (the final
     /// batch is then flushed by the shutdown path) instead of after all acks arrived
     shutdown_behind_last_wave: bool,
+    /// a client asks for a graceful shutdown WHILE writers are still arriving: the Shutdown
+    /// message is queued at a generated position inside a generated wave (`None`: only at the
+    /// end). Writers of that wave at or behind the position race with the shutdown (their
+    /// message sits behind it in the actor's queue); writers of later waves find the actor
+    /// gone, or still running if it took the Shutdown in the middle of a batch.
+    #[serde(default)]
+    early_shutdown: Option<EarlyShutdown>,
+}
+
+#[derive(Clone, Copy, Debug, Serialize, Deserialize, PartialEq, Eq, Hash)]
+struct EarlyShutdown {
+    /// wave, as a fraction of the number of waves
+    wave: u16,
+    /// number of writers of that wave queued AHEAD of the Shutdown message, as a fraction of
+    /// (wave length + 1): 0 = ahead of the whole wave, wave length = right behind it
+    pos: u16,
+}
+
+/// (wave index, writers of that wave ahead of the Shutdown message)
+fn shutdown_point(w: &Workload) -> Option<(usize, usize)> {
+    let e = w.early_shutdown?;
+    if w.waves.is_empty() {
+        return None;
+    }
+    let wi = ((e.wave as usize) * w.waves.len()) >> 16;
+    let p = ((e.pos as usize) * (w.waves[wi].len() + 1)) >> 16;
+    Some((wi, p))
+}
+
+fn early_shutdown(weight_some: u32) -> impl Strategy<Value = Option<EarlyShutdown>> {
+    prop_oneof![
+        (100 - weight_some) => Just(None),
+        weight_some => (
+            // any wave; the last and the first a little more often
+            prop_oneof![2 => any::<u16>(), 1 => Just(0u16), 1 => Just(65_535u16)],
+            // any position; ahead of the whole wave / right behind it a little more often
+            prop_oneof![4 => any::<u16>(), 1 => Just(0u16), 1 => Just(65_535u16)],
+        )
+            .prop_map(|(wave, pos)| Some(EarlyShutdown { wave, pos })),
+    ]
 }
 
 fn fault_kind() -> impl Strategy<Value = Fault> {
@@ -103,14 +143,16 @@ fn small_workload() -> impl Strategy<Value = Workload> {
         proptest::collection::vec(proptest::collection::vec(small_write(), 1..=12), 1..=4),
         faults(),
         prop::bool::weighted(0.25),
+        early_shutdown(20),
     )
         .prop_map(
-            |(group_commit_max_entries, max_file_size, waves, faults, shutdown_behind_last_wave)| Workload {
+            |(group_commit_max_entries, max_file_size, waves, faults, shutdown_behind_last_wave, early_shutdown)| Workload {
                 group_commit_max_entries,
                 max_file_size,
                 waves,
                 faults,
                 shutdown_behind_last_wave,
+                early_shutdown,
             },
         )
 }
@@ -140,8 +182,9 @@ fn large_workload() -> impl Strategy<Value = Workload> {
         ),
         faults(),
         prop::bool::weighted(0.25),
+        early_shutdown(15),
     )
-        .prop_map(|(group_commit_max_entries, mfs_mode, mut waves, bigs, faults, shutdown_behind_last_wave)| {
+        .prop_map(|(group_commit_max_entries, mfs_mode, mut waves, bigs, faults, shutdown_behind_last_wave, early_shutdown)| {
             let first_big = bigs[0].0;
             for (size, stamp, wave, pos) in bigs {
                 let wi = ((wave as usize) * waves.len()) >> 16;
@@ -167,6 +210,7 @@ fn large_workload() -> impl Strategy<Value = Workload> {
                 waves,
                 faults,
                 shutdown_behind_last_wave,
+                early_shutdown,
             }
         })
 }
@@ -181,8 +225,10 @@ fn wide_workload() -> impl Strategy<Value = Workload> {
         (0u32..12, 0u64..50),
         faults(),
         prop::bool::weighted(0.25),
+        // the shutdown overtakes writers that are still blocked on the full channel
+        early_shutdown(30),
     )
-        .prop_map(|(group_commit_max_entries, max_file_size, n, (value_len, stamp), faults, shutdown_behind_last_wave)| Workload {
+        .prop_map(|(group_commit_max_entries, max_file_size, n, (value_len, stamp), faults, shutdown_behind_last_wave, early_shutdown)| Workload {
             group_commit_max_entries,
             max_file_size,
             waves: vec![(0..n)
@@ -194,6 +240,7 @@ fn wide_workload() -> impl Strategy<Value = Workload> {
                 .collect()],
             faults,
             shutdown_behind_last_wave,
+            early_shutdown,
         })
 }
 
@@ -293,9 +340,19 @@ fn run(w: &Workload, deltas: &[(Arc<ReplicationDelta>, Vec<u8>, u64)], faults: &
             let mut outcomes: Vec<WriteOutcome> = Vec::new();
             let mut idx = 0usize;
             let mut shutdown_task = None;
+            let early = shutdown_point(w);
             for (wi, wave) in w.waves.iter().enumerate() {
                 let mut joins = Vec::new();
-                for _ in wave {
+                for k in 0..=wave.len() {
+                    // tasks run in spawn order on this runtime and a task's first poll
+                    // enqueues its message: the Shutdown message sits behind exactly k writers
+                    if early == Some((wi, k)) {
+                        let h = handle.clone();
+                        shutdown_task = Some(tokio::spawn(async move { h.shutdown().await }));
+                    }
+                    if k == wave.len() {
+                        break;
+                    }
                     let h = handle.clone();
                     let s2 = st.clone();
                     let (delta, _, stamp) = deltas[idx].clone();
@@ -305,7 +362,7 @@ fn run(w: &Workload, deltas: &[(Arc<ReplicationDelta>, Vec<u8>, u64)], faults: &
                         (r.map_err(|e| e.to_string()), s2.calls())
                     }));
                 }
-                if w.shutdown_behind_last_wave && wi + 1 == w.waves.len() {
+                if w.shutdown_behind_last_wave && early.is_none() && wi + 1 == w.waves.len() {
                     let h = handle.clone();
                     shutdown_task = Some(tokio::spawn(async move { h.shutdown().await }));
                 }
@@ -321,6 +378,11 @@ fn run(w: &Workload, deltas: &[(Arc<ReplicationDelta>, Vec<u8>, u64)], faults: &
                     let _ = t.await;
                 }
                 None => handle.shutdown().await,
+            }
+            if early.is_some() {
+                // the actor may have outlived the early request (Shutdown taken in the middle
+                // of a batch): ask again, as the server's exit path would
+                handle.shutdown().await;
             }
             drop(handle);
             if let Err(e) = task.await {
@@ -458,12 +520,22 @@ fn check_run(
     let appended_at = locate_appends(deltas, r);
     let context = |extra: &str| -> String {
         format!(
-            "{}\n  config: group_commit_max_entries={} max_file_size={} waves={:?} shutdown_behind_last_wave={}\n  faults: {:?}\n  I/O calls:\n{}",
+            "{}\n  config: group_commit_max_entries={} max_file_size={} waves={:?} shutdown {}\n  faults: {:?}\n  I/O calls:\n{}",
             extra,
             w.group_commit_max_entries,
             w.max_file_size,
             w.waves.iter().map(|v| v.len()).collect::<Vec<_>>(),
-            w.shutdown_behind_last_wave,
+            match shutdown_point(w) {
+                Some((sw, p)) => format!(
+                    "requested while writers arrive: the Shutdown message is queued behind the first {} of the {} writers of wave {} (writes w{}.. race with it or come after it)",
+                    p,
+                    w.waves[sw].len(),
+                    sw,
+                    w.waves[..sw].iter().map(|x| x.len()).sum::<usize>() + p
+                ),
+                None if w.shutdown_behind_last_wave => "queued right behind the last wave".to_string(),
+                None => "after all acks".to_string(),
+            },
             faults,
             show_log(&r.log)
         )
@@ -605,10 +677,18 @@ fn batch_shape(w: &Workload, deltas: &[(Arc<ReplicationDelta>, Vec<u8>, u64)], r
     let mut largest = 0;
     let mut straddle = false;
     let mut idx = 0usize;
-    for wave in &w.waves {
+    let early = shutdown_point(w);
+    for (wi, wave) in w.waves.iter().enumerate() {
+        // only the writers queued ahead of an early Shutdown are batched as stated (the
+        // Shutdown flushes the batch it lands in); what follows it is not counted
+        let len = match early {
+            Some((sw, p)) if wi == sw => p,
+            Some((sw, _)) if wi > sw => 0,
+            _ => wave.len(),
+        };
         let mut k = 0;
-        while k < wave.len() {
-            let size = m.min(wave.len() - k);
+        while k < len {
+            let size = m.min(len - k);
             largest = largest.max(size);
             let files: BTreeSet<&String> = (idx + k..idx + k + size)
                 .filter_map(|wi| at.get(&wi).map(|&li| &r.log[li].file))
@@ -815,9 +895,69 @@ fn check_workload(w: &Workload, ctx: &mut CaseCtx<'_>) -> Result<(), String> {
     if w.max_file_size <= 17 {
         ctx.label("rotate_after_every_entry");
     }
-    if v.failed > 0 {
+    let early = shutdown_point(w);
+    if v.failed > 0 && early.is_none() {
         // not a durability claim (and the 5 s ack timeout could cause it on a stalled machine)
         ctx.label("fault_free_run_reports_a_failed_write");
+    }
+    // ---- where the Shutdown request was queued, and what became of the writers that raced
+    //      with it / came after it in the fault-free run (measured, not assumed)
+    match early {
+        None => ctx.label(if w.shutdown_behind_last_wave { "shutdown=queued_behind_last_wave" } else { "shutdown=after_all_acks" }),
+        Some((sw, p)) => {
+            let len = w.waves[sw].len();
+            let last = sw + 1 == w.waves.len();
+            ctx.label(match (p, last) {
+                (0, _) => "shutdown=early:ahead_of_a_whole_wave",
+                (p, true) if p == len => "shutdown=early:behind_last_wave",
+                (p, false) if p == len => "shutdown=early:behind_a_wave,more_waves_follow",
+                _ => "shutdown=early:inside_a_wave",
+            });
+            let at = locate_appends(&deltas, &free);
+            let first_of_wave: usize = w.waves[..sw].iter().map(|x| x.len()).sum();
+            let racing = first_of_wave + p..first_of_wave + len;
+            let later = first_of_wave + len..deltas.len();
+            let class = |range: std::ops::Range<usize>| -> (usize, usize, usize) {
+                let mut ok = 0;
+                let mut err_absent = 0;
+                let mut err_appended = 0;
+                for i in range {
+                    match (free.outcomes[i].result.is_ok(), at.contains_key(&i)) {
+                        (true, _) => ok += 1,
+                        (false, false) => err_absent += 1,
+                        (false, true) => err_appended += 1,
+                    }
+                }
+                (ok, err_absent, err_appended)
+            };
+            let (ok, gone, odd) = class(racing.clone());
+            if racing.is_empty() {
+                ctx.label("racing_writers=0");
+            } else {
+                ctx.label(&format!("racing_writers={}", match racing.len() { 1 => "1", 2..=4 => "2-4", _ => "5+" }));
+                if gone > 0 {
+                    ctx.label("racing_writer:message_dropped_unanswered->Err(actor exited on the Shutdown)");
+                }
+                if ok > 0 {
+                    ctx.label("racing_writer:committed->Ok(actor took the Shutdown inside a batch and went on)");
+                }
+                if ok > 0 && gone > 0 {
+                    ctx.label("racing_writers:some_committed_some_dropped");
+                }
+                if odd > 0 {
+                    ctx.label("racing_writer:appended_but_Err");
+                }
+            }
+            let (ok, gone, _) = class(later.clone());
+            if !later.is_empty() {
+                if gone > 0 {
+                    ctx.label("later_wave:actor_gone->Err(send fails)");
+                }
+                if ok > 0 {
+                    ctx.label("later_wave:committed_by_surviving_actor->Ok");
+                }
+            }
+        }
     }
     if v.tolerated_rotate > 0 {
         ctx.label("fault_free_run_loses_acked_write(KF-C09-01)");
@@ -968,6 +1108,7 @@ fn check_workload(w: &Workload, ctx: &mut CaseCtx<'_>) -> Result<(), String> {
             w.max_file_size,
             w.waves.iter().map(|v| v.iter().map(|x| (x.value_len, x.stamp)).collect::<Vec<_>>()).collect::<Vec<_>>(),
             w.shutdown_behind_last_wave,
+            early,
         ));
     }
     ctx.add_evaluations(evals + runs);
@@ -991,7 +1132,7 @@ fn main() {
         Level::FaultEnumeration,
         "a workload = 1..4 waves of 1..12 concurrent write_durable calls (value 0..400 bytes) against spawn_wal_actor(TraceWalStore) with \
          FsyncPolicy::Always, group_commit_max_entries 1..8, group_commit_max_wait 0, max_file_size from 'rotate after every entry' to 'never', \
-         optional shutdown queued behind the last wave, and a generated script of 0..3 faults; per workload ENUMERATED: the fault-free run and every \
+         optional shutdown queued behind the last wave or (20 %) at a generated position inside / ahead of / behind any wave so that writers race with it or find the actor gone, and a generated script of 0..3 faults; per workload ENUMERATED: the fault-free run and every \
          single fault (append fails / writes 1, half, all-but-one bytes then fails / disk full once / disk full for good / create fails / fsync fails) \
          at every I/O call of the fault-free run (thorough: plus a second fault within the next 6 calls); per run EVERY crash instant (after each I/O \
          call): durable image = bytes <= synced_len per file, recovered with WalRotator::recover_all_entries. non-trivial = the fault-free run has a \
@@ -1013,6 +1154,7 @@ fn main() {
                 waves: vec![vec![ws(3, 1), ws(3, 2)]],
                 faults: vec![],
                 shutdown_behind_last_wave: false,
+                early_shutdown: None,
             };
             let deltas = make_deltas(&w);
             let r = match run(&w, &deltas, &[]) {
@@ -1034,6 +1176,7 @@ fn main() {
                 waves: vec![vec![ws(3, 1), ws(3, 2)]],
                 faults: vec![],
                 shutdown_behind_last_wave: false,
+                early_shutdown: None,
             };
             let deltas = make_deltas(&w);
             // calls: #0 create, #1 header, #2 append w0, #3 append w1 (fails)
